@@ -3,12 +3,15 @@ import TransportVerif.Model.ListenerLife
 namespace TV.LifeLink
 open TV.ListenerLife
 
-/-- well-formed scenario: every connection closer targets one of the `accepted` connections, at most
-    one closer per connection, at most one listener closer -/
+/-- well-formed scenario: every connection closer targets one of the `accepted` connections or the
+    connection an acceptor thread of the scenario will return, at most one closer per connection, at
+    most one listener closer -/
 def WfRoles (accepted : Nat) (roles : List Role) : Prop :=
   (∀ c, Role.ccloser c ∈ roles → c < accepted) ∧
   (roles.filter (· = .lcloser)).length ≤ 1 ∧
-  ∀ c, (roles.filter (· = .ccloser c)).length ≤ 1
+  (∀ c, (roles.filter (· = .ccloser c)).length ≤ 1) ∧
+  (∀ a, Role.acloser a ∈ roles → roles[a]? = some .acceptor) ∧
+  ∀ a, (roles.filter (· = .acloser a)).length ≤ 1
 
 def Reach (s : Sys) : Prop :=
   ∃ accepted queued backlog roles ops, WfRoles accepted roles ∧ s = run backlog (Sys.init accepted queued roles) ops
@@ -17,11 +20,18 @@ def Reach (s : Sys) : Prop :=
 def listenerRef (s : Sys) : Nat :=
   if s.ths.any (fun th => th.role = .lcloser ∧ (th.pc = .atWait ∨ th.pc = .parkedWait ∨ th.pc = .done .ok)) then 0 else 1
 
+/-- thread `th` has started to close connection `c` -/
+def closes (s : Sys) (th : Th) (c : Nat) : Bool :=
+  match th.role with
+  | .ccloser c' => c' == c && th.pc != .start
+  | .acloser a => th.pc != .start && s.accepted? a == some c
+  | _ => false
+
 /-- connections a client holds (accepted before the phase: ids below `accepted`; or returned by an
     Accept of the phase) whose Close has not started -/
 def openHeld (accepted : Nat) (s : Sys) : Nat :=
   let held := List.range accepted ++ s.ths.filterMap (fun th => match th.pc with | .done (.conn c) => some c | _ => none)
-  (held.filter (fun c => !(s.ths.any (fun th => th.role = .ccloser c ∧ th.pc ≠ .start)))).length
+  (held.filter (fun c => !(s.ths.any (fun th => closes s th c)))).length
 
 def listenerClosed (s : Sys) : Bool := listenerRef s == 0
 
